@@ -193,7 +193,11 @@ class Life:
                 self.v("C03.a", (site, "%s->%s" % (p, n)), "illegal transition %s -> %s at %s (order %s %s)" % (p, n, site, order_kind(o), o.side))
             if p in ("CANCELLING", "UPDATING", "REPLACING"):
                 self.c("response_to_inflight_request")
-        if id(o) in self.sent_complete and "C03" in self.en:
+        if "C03" in self.en and n == "EXECUTION_COMPLETE" and p not in (None, "VIOLATION") and o.simulated and id(o) not in self.sent_complete:
+            # finality is judged from the very call that reports the order complete (simulation: the sizes are
+            # final there), not from the next sampling point - a fill later in the same cycle counts
+            self.sent_complete[id(o)] = o.size_matched
+        elif id(o) in self.sent_complete and "C03" in self.en:
             if not o.complete:
                 self.c("clause:C03.c")
                 self.v("C03.c", (site, "complete-flag", "%s->%s" % (p, n)), "order reported complete became live again: %s -> %s at %s" % (p, n, site))
